@@ -217,8 +217,41 @@ func init() {
 				kinds["no-value-near-miss"]++
 			}
 		}
+		// every kind of simple statement as the first and as the third clause of a three-clause loop (valid ones and near misses)
+		for _, ini := range loopInitClauses {
+			for _, post := range loopPostClauses {
+				if ini != loopInitClauses[0] && post != loopPostClauses[0] {
+					continue // one clause varies at a time
+				}
+				body := fmt.Sprintf("for %s; a < 3; %s {\n\tprint(a, b)\n\tif a > 5 {\n\t\tbreak\n\t}\n}\n", ini, post)
+				// the variables declared before the loop: both (assignment forms), only the second one, none (defining forms)
+				for _, decl := range []string{"var a, b int\n", "var b int\n", ""} {
+					for _, wrap := range []string{"%s", "func body0() {\n%s}\nbody0()\n"} {
+						src := loopClausePrelude + fmt.Sprintf(wrap, decl+body)
+						f := progFields("main.tsh", map[string]string{"main.tsh": src}, false)
+						g.addCase("parse", f...)
+						g.addCase("emit", f...)
+						kinds["loop-clause"]++
+					}
+				}
+			}
+		}
 		g.meta["fuzz_kinds"] = kinds
 	}
+}
+
+const loopClausePrelude = "func pair() (int, int) {\n\treturn 0, 7\n}\nfunc one(n int) int {\n\treturn n\n}\n"
+
+// the first entry of each list is the plain form; the loop variable is a, the second variable b
+var loopInitClauses = []string{
+	"a = 0", "a := 0", "var a = 0", "var a int = 0", "var a int", "a, b = 1, 2", "a, b := 1, 2", "var a, b = 1, 2", "var a, b int = 1, 2",
+	"var a, b int", "a, b = pair()", "a, b := pair()", "var a, b = pair()", "var a, b int = pair()", "a = one(1)", "a := one(1)",
+	"var a = one(1)", "a++", "a += 1", "print(1)", "one(1)", "pair()", "a, b = b, a", "", "var a = pair()", "a := pair()", "var a, b = one(1)",
+}
+
+var loopPostClauses = []string{
+	"a++", "a--", "a += 1", "a = a + 1", "a, b = a + 1, a", "a, b = pair()", "a, b := pair()", "var z = 1", "z := 1", "var a, b = pair()", "print(a)", "one(1)",
+	"pair()", "", "a = one(a + 1)", "a, b = b + 1, a + 1",
 }
 
 const voidPrelude = "func nv() {\n\tprint(\"nv\")\n}\nfunc id(n int) int {\n\treturn n\n}\n"
